@@ -34,6 +34,7 @@ func init() {
 			{ID: "C01.R12", Text: "the tracked positions live in a faithful map: a Store is a store of that key, a Load returns what was stored (same rule as C04.R9)", Run: wrapperFaithful},
 			{ID: "C01.R13", Text: "a backend is only ever handed Checkpoint.Save's dump: every invocation of Metadata.Save is that call or a wrapping backend forwarding its own parameters (no helper re-packs documents under keys of its own)", Run: whoMaySave},
 			{ID: "C01.R14", Text: "a checkpoint document belongs to one (group, vBucket): its key is a function of the group name and the vBucket id of the call, never a cached value (same rule as C14.R4)", Run: c14r4},
+			{ID: "C01.R15", Text: "a restart answered with a rollback still re-delivers everything above the checkpoint: the catch-up filter skips ⇔ need ∧ seq ≤ F and nothing else (same rule as C08.R5)", Run: c08r5},
 			{ID: "C01.R7", Text: "no store through a pointer to a field of models.Offset / models.SnapshotMarker outside the composite literal that allocates it", Run: immutableOffsets},
 		},
 	})
